@@ -97,8 +97,10 @@ class _Mon(object):
         m._keep = e
         return m, rec
 
-    def total_progress(self, m, rec, n, cur, transit, finished, prog):
-        """run the real CheckStatus once with a fake controller"""
+    def total_progress(self, m, rec, n, cur, transit, finished, prog, churn=False):
+        """run the real CheckStatus once with a fake controller.  churn: while the progress of a stage is being
+        computed the controller moves every stage in transit to the finished ones (another thread would): the report
+        must be computed from ONE snapshot of the two lists, so the answer is the same"""
         captured = {}
         M = self.M
         orig = M.CreateMonitor
@@ -111,9 +113,16 @@ class _Mon(object):
         ctl.stage = lambda: m._keep._stages[cur]
         ctl.stageState = lambda st: 'running'
         ctl.comp_lock = threading.RLock()
-        ctl.get_stages_in_transit = lambda: sorted(transit)
-        ctl.get_stages_finished = lambda: sorted(finished)
-        ctl.get_stage_status = lambda idx: float(prog[idx])
+        tr_now, fin_now = set(transit), set(finished)
+
+        def stage_status(idx):
+            if churn:
+                fin_now.update(tr_now)
+                tr_now.clear()
+            return float(prog[idx])
+        ctl.get_stages_in_transit = lambda: sorted(tr_now)
+        ctl.get_stages_finished = lambda: sorted(fin_now)
+        ctl.get_stage_status = stage_status
         try:
             m.run(ctl)
         finally:
@@ -278,7 +287,9 @@ def _explore(ctx, cases, complete=False):
             if complete:
                 prog, cur, finished, transit = [D] * n, n - 1, list(range(n - 1)), []
             contributing = set(finished) | set(transit) | {cur}
-            tp = mon.total_progress(m_, rec, n, cur, transit, finished, [Fraction(p, D) for p in prog])
+            churn = (len(transit) > 0 and (sum(prog) + cur) % 2 == 0)
+            ctx.count('controller_changes_during_the_report' if churn else 'static_controller')
+            tp = mon.total_progress(m_, rec, n, cur, transit, finished, [Fraction(p, D) for p in prog], churn=churn)
             expect = sum(Fraction(prog[i], D) * wq[i] / U for i in contributing)
             # the proved bound (C20_float_progress) replaces the former 1e-9 tolerance; n = contributing stages
             bound = proved_bound(len(contributing), expect)
